@@ -539,7 +539,12 @@ def judge_site(repo, J, site, ctx_assume, indent_pairing_ok=None):
         if fn == 'chr':
             g = J.g_upper_bound(site, 0x10FFFF)
             if g:
-                return ('guarded', g)
+                lo = _digits_origin(J, site, n.args[0])
+                if lo is None:
+                    return ('unguarded', 'chr() of a value that is not known to be non-negative: it does not come from int() of a '
+                                         'string whose every character was tested to be a digit (int() also accepts a sign, '
+                                         'blanks and underscores)')
+                return ('guarded', g + ', ' + lo[0])
             return ('unguarded', 'chr() of a value that is not bounded by 0x10FFFF')
         if fn == 'ord':
             a = n.args[0]
@@ -555,9 +560,22 @@ def judge_site(repo, J, site, ctx_assume, indent_pairing_ok=None):
             a = n.args[0]
             if isinstance(a, ast.Name):
                 apps = [c for c in A.func_calls(f.node) if isinstance(c.func, ast.Attribute) and c.func.attr == 'append'
-                        and isinstance(c.func.value, ast.Name) and c.func.value.id == a.id]
-                if apps and all(norm(c.args[0]) == 'int(self.prefix(2), 16)' for c in apps):
-                    return ('guarded', 'G-range (elements are 2-hex-digit values)')
+                        and isinstance(c.func.value, ast.Name) and c.func.value.id == a.id and len(c.args) == 1]
+                others = [x for x in walk_function(f.node) if isinstance(x, (ast.Assign, ast.AugAssign))
+                          and any(isinstance(t, ast.Name) and t.id == a.id
+                                  for t in (x.targets if isinstance(x, ast.Assign) else [x.target]))
+                          and not (isinstance(x, ast.Assign) and isinstance(x.value, ast.List) and not x.value.elts)]
+                if apps and not others:
+                    why = None
+                    for c in apps:
+                        o = _digits_origin(J, site, c.args[0])
+                        if o is None:
+                            why = 'an element of the list is not int() of characters that were each tested to be a digit'
+                        elif o[1] is None or o[1] > 255:
+                            why = 'an element of the list can exceed 255 (%s)' % o[0]
+                    if why is None:
+                        return ('guarded', 'G-range (every element is int() of at most 2 validated hexadecimal digits)')
+                    return ('unguarded', 'bytes() of a list of integers raises ValueError outside range(256): ' + why)
             return ('unguarded', 'bytes() of values not known to be in range(256)')
         return ('unguarded', 'conversion that can raise %s outside any handler that turns it into a YAML error' % site.exc)
     # ---- subscripts
@@ -704,6 +722,41 @@ def judge_site(repo, J, site, ctx_assume, indent_pairing_ok=None):
             return ('guarded', 'not a regex match object')
         return ('unguarded', 'method call on a possibly-None match object')
     return ('unguarded', 'unclassified partial operation')
+
+
+def _digits_origin(J, site, e, depth=0):
+    """e is (a local bound only to) `int(text[, base])` whose text is proved digit-only by the character guards:
+    (description, largest possible value or None).  None when e has another origin."""
+    f = site.func
+    if depth > 3:
+        return None
+    if isinstance(e, ast.Name):
+        defs = [x for x in walk_function(f.node) if isinstance(x, (ast.Assign, ast.AugAssign, ast.For, ast.NamedExpr))
+                and any(isinstance(t, ast.Name) and t.id == e.id for t in
+                        (x.targets if isinstance(x, ast.Assign) else [x.target]))]
+        if e.id in f.params or not defs or not all(isinstance(x, ast.Assign) for x in defs):
+            return None
+        res = [_digits_origin(J, site, x.value, depth + 1) for x in defs]
+        if any(r is None for r in res):
+            return None
+        tops = [r[1] for r in res]
+        return (res[0][0], None if any(t is None for t in tops) else max(tops))
+    if isinstance(e, ast.Call) and norm(e.func) == 'int' and e.args:
+        sub = Site(f, e, 'conv', norm(e)[:80], 'ValueError')
+        g = J.g_chars(sub)
+        if not g:
+            return None
+        base = A.const_value(e.args[1]) if len(e.args) > 1 else 10
+        top = None
+        arg = e.args[0]
+        if isinstance(arg, ast.Name):
+            top = base - 1
+        elif isinstance(arg, ast.Call) and isinstance(arg.func, ast.Attribute) and arg.func.attr == 'prefix' and arg.args:
+            k = J._length_bound(arg.args[0], e)
+            if isinstance(k, int) and k <= 16:
+                top = base ** k - 1
+        return ('non-negative: ' + g, top)
+    return None
 
 
 def _g_group(repo, J, site):
